@@ -356,6 +356,59 @@ def explore_mesh(M, name, n, faces, sort, rep: Report, events, depth=None, big=F
                     "longest_history": list(max(seen.values(), key=len))})
 
 
+# accessors tried as the first query after the flip (one per lazily built structure, plus the ring accessors)
+FLIP_FIRST = ("vertex_to_vertices", "vertex_to_edges", "vertex_to_corners", "vertex_to_faces", "edge_id", "next_corner",
+              "half_edge_to_corner", "face_id", "is_vertex_on_border", "boundary_edges", "face_to_faces")
+
+
+def flip_scenario(M, name, n, faces, sort, rep: Report, events):
+    """Configuration flipped inside a history: every cache is built under the OTHER value of sort_neighborhoods,
+    then the switch is set to `sort` and the documented resets are called (connectivity.clear(),
+    clear_boundary_data()). From there on every answer must be the one of a mesh built under `sort`, whichever
+    accessor is asked first."""
+    def prepared():
+        M.config.sort_neighborhoods = not sort
+        m = _build(M, n, faces)
+        for ev in events:
+            d = doms[ev.name]
+            if d:
+                call(ev.fn, m, *d[0])
+        M.config.sort_neighborhoods = sort
+        m.connectivity.clear(); m.clear_boundary_data()
+        return m
+    m0 = _build(M, n, faces)
+    o = SurfOracle(faces, n, [tuple(e) for e in m0.edges])
+    doms = {e.name: list(e.domain(o)) for e in events}
+    icls = _input_class(o, sort, True) + ":after_config_flip_and_clear"
+    memo = {}
+    try:
+        firsts = [e for e in events if e.name in FLIP_FIRST]
+        for first in firsts:
+            m = prepared()
+            rep.traces += 1
+            for ev in [first] + [e for e in events if e is not first]:
+                rep.transitions += 1
+                for a in doms[ev.name]:
+                    rep.evaluations += 1
+                    r = call(ev.fn, m, *a)
+                    if not r.ok:
+                        rep.violation("C01." + ev.name, ev.callee, exc_kind(r), icls,
+                                      {"mesh": name, "n": n, "faces": faces, "sort": sort, "first_query_after_clear": first.name, "args": list(a), "msg": r.msg})
+                        break
+                    g = tup(r.value)
+                    mk = (ev.name, a, g)
+                    if mk not in memo:
+                        memo[mk] = ev.judge(o, a, r.value)
+                    if memo[mk] is not None:
+                        rep.violation("C01." + ev.name, ev.callee, "mismatch:" + memo[mk][0], icls,
+                                      {"mesh": name, "n": n, "faces": faces, "sort": sort, "first_query_after_clear": first.name,
+                                       "args": list(a), "got": g, "want": memo[mk][1]})
+                        break
+        rep.flag("config_flip_scenario")
+    finally:
+        M.config.sort_neighborhoods = sort
+
+
 def run_task(task, rep: Report):
     import mouette as M
     old = M.config.sort_neighborhoods
@@ -370,6 +423,8 @@ def run_task(task, rep: Report):
         for name, n, faces in task["meshes"]:
             faces = [tuple(f) for f in faces]
             explore_mesh(M, name, n, faces, bool(task["sort"]), rep, events, task.get("depth"))
+            if task.get("depth") is None:
+                flip_scenario(M, name, n, faces, bool(task["sort"]), rep, events)
     finally:
         M.config.sort_neighborhoods = old
 
